@@ -52,7 +52,7 @@ func (c *compiler) compileChange(achange *parse.Change) *Change {
 
 	ldots := mc.dots
 	rdots := rc.dots
-	if err := connectDots(c.fset, ldots, rdots, rc.dotAssoc); err != nil {
+	if err := connectDots(c.fset, ldots, rdots, mc.implicitLead, rc.dotAssoc); err != nil {
 		c.errf(token.NoPos, "%v", err)
 	}
 
@@ -78,7 +78,15 @@ func (c *Change) Replace(d data.Data, cl Changelog) (*ast.File, error) {
 	return c.replacer.Replace(d, cl)
 }
 
-func connectDots(fset *token.FileSet, lhs, rhs []token.Pos, conns map[token.Pos]token.Pos) error {
+// connectDots associates every "..." of the "+" section with the closest "..."
+// of the "-" section that is not after it in the patch.
+//
+// lead is the position of the "..." that was placed in front of a statement
+// patch for the statements that precede it, if any: it stands for code outside
+// the patch and only the "..." placed at the same spot in the "+" section
+// repeats it. A "..." written in the "+" section before every "..." of the "-"
+// section has no counterpart.
+func connectDots(fset *token.FileSet, lhs, rhs []token.Pos, lead token.Pos, conns map[token.Pos]token.Pos) error {
 	cache := make(map[token.Pos]token.Position)
 	getPosition := func(pos token.Pos) token.Position {
 		p, ok := cache[pos]
@@ -112,6 +120,10 @@ func connectDots(fset *token.FileSet, lhs, rhs []token.Pos, conns map[token.Pos]
 			lpos := getPosition(lhs[i])
 			return lpos.Line < rpos.Line || lpos.Line == rpos.Line && lpos.Column <= rpos.Column
 		})
+
+		if i < len(lhs) && lead.IsValid() && lhs[i] == lead && r != lead {
+			i = len(lhs)
+		}
 
 		if i == len(lhs) {
 			return fmt.Errorf(`%v: "..." in "+" section does not have an associated "..." in "-" section`, rpos)
